@@ -262,6 +262,44 @@ class VariantRoundTrip(Case):
 
 
 # ---- bounded: native round trips under a hash-seed sweep ----------------------------------------------------------
+class GuidSensitivity(Case):
+    """'changing a coordinate ... changes the identifier' on the real md5-based digest (the verifier models the digest
+    as a function of its ARGUMENT TUPLE, so it cannot see that digest_object feeds the pieces to md5 without any
+    separator): all pairs of single-block VariantInterval / FeatureInterval objects with different coordinates from a
+    small grid that contains digit-concatenation twins must have different identifiers."""
+    props = ("C08",)
+    proved = False
+    name = "bounded: different coordinates => different identifier (digit-concatenation twins included)"
+    func = "util.hashing.digest_object"
+    scope = "VariantInterval(s, e, 'A', 'snv') and FeatureInterval([s], [e], +) for all 0 <= s < e in {1, 2, 11, 12, 13, 112, 113, 213}: every pair of distinct (s, e)"
+    call = "_pair()"
+    ensures = {"distinct-coordinates-distinct-identifier": lambda i, r: r[0] != r[1]}
+    # known finding F-C08-2: the string pieces are concatenated without a separator before hashing
+    known = {"distinct-coordinates-distinct-identifier": dict(
+        id="F-C08-2", carve=lambda i: i.kind == "variant" and f"{i.a[0]}{i.a[1]}" == f"{i.b[0]}{i.b[1]}")}
+
+    def inputs(self, S):
+        from inscripta.biocantor.gene.variants import VariantInterval
+        from inscripta.biocantor.gene.feature import FeatureInterval
+        from inscripta.biocantor.location import Strand
+        a, b, kind = tuple(S.const("a")), tuple(S.const("b")), S.const("kind")
+
+        def _pair():
+            if kind == "variant":
+                return (str(VariantInterval(a[0], a[1], "A", "snv").guid), str(VariantInterval(b[0], b[1], "A", "snv").guid))
+            return (str(FeatureInterval([a[0]], [a[1]], Strand.PLUS).guid), str(FeatureInterval([b[0]], [b[1]], Strand.PLUS).guid))
+
+        return NS(_pair=_pair, a=a, b=b, kind=kind)
+
+    def domain(self, tier):
+        grid = [1, 2, 11, 12, 13, 112, 113, 213]
+        spans = [(s, e) for s in grid for e in grid if s < e]
+        for kind in ("variant", "feature"):
+            for x in range(len(spans)):
+                for y in range(x + 1, len(spans)):
+                    yield dict(a=list(spans[x]), b=list(spans[y]), kind=kind)
+
+
 class NativeRoundTrips(Case):
     props = ("C08",)
     proved = False
@@ -376,4 +414,4 @@ class NativeRoundTrips(Case):
 
 
 CASES = [TranscriptRoundTrip(1, False), TranscriptRoundTrip(2, False), TranscriptRoundTrip(1, True), VariantRoundTrip(),
-         NativeRoundTrips(), CdsGuidContent(), ParentToDict()]
+         NativeRoundTrips(), CdsGuidContent(), ParentToDict(), GuidSensitivity()]
